@@ -17,7 +17,8 @@ REQUIRED_THEOREMS = ['Properties.C03.flow_normalised_progN', 'Properties.C03.log
                      'Properties.C03.flow_logprob_normalised_1d', 'Properties.C03.base_normalised', 'Properties.C03.executed_rq_tails_flow_normalised', 'Properties.C03.executed_composite_flow_normalised', 'Properties.C03.stdNormal1_exec_normalised', 'Properties.C03.executed_pipeline_is_normalised', 'Properties.C03.executed_rq_cdf_layer_is_diffeo', 'Properties.C03.executed_flow_is_normalised', 'Properties.C03.executed_pipeline_with_coupling_is_normalised', 
                      'Properties.C03.made_forward_differentiable', 'Properties.C03.softplus_threshold_discontinuity', 'Properties.C03.maf_layer_differentiable', 'Properties.C03.executed_pipeline_with_maf_is_normalised',
                      'Properties.C03.box_flow_normalised', 'Properties.C03.rq_uniform_flow_normalised', 'Properties.C03.rq_executed_uniform_flow_normalised', 'Properties.C03.cubic_uniform_flow_normalised', 'Properties.C03.rq_default_bounded_flow_example',
-    "Properties.C03.sigmoid_flow_normalised", "Properties.C03.sigmoid_uniform_flow_normalised", "Properties.C03.sigmoid_executed_flow_almost_normalised", "Properties.C03.sigmoid_executed_exact_region", "Properties.C03.logit_flow_normalised", "Properties.C03.logit_executed_eq", "Properties.C03.logit_stdNormal_flow_normalised", "Properties.C03.sigmoid_flow_normalised_nd", "Properties.C03.logit_flow_normalised_nd", "Properties.C03.logit_then_prog_flow_normalised", "Properties.C03.flow_normalised_any_base", "Properties.C03.flow_normalised_any_base_prog", "Properties.C03.mogRow_eq_mogLogp", "Properties.C03.mog_base_normalised", "Properties.C03.flow_normalised_mog_base", "Properties.C03.flow_normalised_mogRow_base", "Properties.C03.flowLogProb_withEmb", "Properties.C03.flowSalp_withEmb", "Properties.C03.flowLogProbExec_embedding", "Properties.C03.flow_with_embedding_normalised", "Properties.C03.flow_with_embedding_normalised_nd",]
+    "Properties.C03.sigmoid_flow_normalised", "Properties.C03.sigmoid_uniform_flow_normalised", "Properties.C03.sigmoid_executed_flow_almost_normalised", "Properties.C03.sigmoid_executed_exact_region", "Properties.C03.logit_flow_normalised", "Properties.C03.logit_executed_eq", "Properties.C03.logit_stdNormal_flow_normalised", "Properties.C03.sigmoid_flow_normalised_nd", "Properties.C03.logit_flow_normalised_nd", "Properties.C03.logit_then_prog_flow_normalised", "Properties.C03.flow_normalised_any_base", "Properties.C03.flow_normalised_any_base_prog", "Properties.C03.mogRow_eq_mogLogp", "Properties.C03.mog_base_normalised", "Properties.C03.flow_normalised_mog_base", "Properties.C03.flow_normalised_mogRow_base", "Properties.C03.flowLogProb_withEmb", "Properties.C03.flowSalp_withEmb", "Properties.C03.flowLogProbExec_embedding", "Properties.C03.flow_with_embedding_normalised", "Properties.C03.flow_with_embedding_normalised_nd",
+    "Properties.C03.execLinear_spec", "Properties.C03.ExecLinear_batch_row", "Properties.C03.actStep_batch", "Properties.C03.bnStep_batch", "Properties.C03.GlowLayer_is_diffeo", "Properties.C03.glow_flow_is_normalised", "Properties.C03.glow_flow_is_normalised_any_base", "Properties.C03.glow_flow_is_normalised_flowLogProb0", "Properties.C03.glow_flow_smooth_conditioner_is_normalised", "Properties.C03.executed_pipelineG_normalised", "Properties.C03.executed_pipelineG_normalised_any_base",]
 RULE = ("random programs: 1-3 stages drawn from the registry entries of the flow's data dimension whose domain is the whole line (affine, leaky ReLU, LogTanh, "
         "Piecewise*CDF with linear tails, coupling / masked autoregressive transforms with tails or affine), some wrapped in InverseTransform, plus "
         "CompositeCDFTransform(Sigmoid, bounded CDF); bases StandardNormal, DiagonalNormal, ConditionalDiagonalNormal; context none / rows / rows through an "
